@@ -70,14 +70,17 @@ func (t Templates) ServeHTTP(w http.ResponseWriter, r *http.Request) (int, error
 		// pass request up the chain to let another middleware provide us the template
 		code, err := t.Next.ServeHTTP(rb, r)
 		if !rb.Buffered() || code >= 300 || err != nil {
-			if rb.Buffered() && rb.Written() && code < 300 {
-				// the handler wrote its response (it is in our buffer) and
-				// only reports an error to be logged: deliver what it wrote
+			if rb.Buffered() && rb.Written() {
+				// the handler wrote its response (it is in our buffer),
+				// whatever it returns besides (an error to be logged, or
+				// the status it wrote, as browse does for its redirect):
+				// deliver what it wrote
 				rb.CopyHeader()
 				rb.StatusCodeWriter(w).WriteHeader(0)
 				if _, werr := w.Write(rb.Buffer.Bytes()); werr != nil && err == nil {
 					err = werr
 				}
+				return 0, err
 			}
 			return code, err
 		}
